@@ -109,6 +109,20 @@ def prove_eq(oid, hyps, a, b, func=None, timeout_ms=None, replay=None, inst=None
         st, info = polyring.decide_eq(hyps, a, b)
     except polyring.NotRing as e:
         st, info = 'undecided', dict(notring=str(e))
+    if st != 'proved':
+        # congruence lemmas: f(s) == f(t) whenever s == t is a ring identity under the hypotheses
+        lem = _congruence_lemmas(hyps, a, b)
+        if lem:
+            r2 = smt.check(list(hyps) + lem, a == b, timeout_ms=z3_first_ms * 3, use_cli=False)
+            if r2['status'] == 'proved':
+                return R(oid, 'proof', 'proved', backend='polyring+z3', seconds=time.time() - t0,
+                         detail='%d congruence lemmas f(s)=f(t) (argument equalities are ring identities), then unsat' % len(lem),
+                         func=func, inst=inst, trusted=(trusted or []) + ['vf/polyring.py exact rational-function normaliser'])
+            try:
+                a2, b2 = _rewrite_apps(a, lem), _rewrite_apps(b, lem)
+                st, info = polyring.decide_eq(hyps, a2, b2)
+            except polyring.NotRing as e:
+                st, info = 'undecided', dict(notring=str(e))
     if st == 'proved':
         return R(oid, 'proof', 'proved', backend='polyring+z3', seconds=time.time() - t0,
                  detail='normal form of lhs-rhs is the zero polynomial; %s divisors shown non-zero by z3' % info.get('divisors'),
@@ -202,3 +216,54 @@ def bounded_tasks(pid, tier):
     except ModuleNotFoundError:
         return []
     return list(m.tasks(tier))
+
+
+def _apps(e, out):
+    if z3.is_app(e):
+        if e.decl().kind() == z3.Z3_OP_UNINTERPRETED and e.num_args() > 0 and z3.is_real(e):
+            if not any(e.eq(x) for x in out):
+                out.append(e)
+        for c in e.children():
+            _apps(c, out)
+
+
+def _congruence_lemmas(hyps, a, b):
+    """equalities f(s) == f(t) between applications of the same uninterpreted function occurring in a / b whose arguments are
+    equal as rational functions (decided by the ring normaliser under hyps)."""
+    from . import polyring
+    apps = []
+    _apps(a, apps)
+    _apps(b, apps)
+    lem = []
+    for i in range(len(apps)):
+        for j in range(i + 1, len(apps)):
+            x, y = apps[i], apps[j]
+            if x.decl().name() != y.decl().name() or x.num_args() != y.num_args():
+                continue
+            ok = True
+            for s, t in zip(x.children(), y.children()):
+                if s.eq(t):
+                    continue
+                if not z3.is_real(s):
+                    ok = z3.is_true(z3.simplify(s == t))
+                    if not ok:
+                        break
+                    continue
+                try:
+                    st, _ = polyring.decide_eq(hyps, s, t)
+                except polyring.NotRing:
+                    st = 'no'
+                if st != 'proved':
+                    ok = False
+                    break
+            if ok:
+                lem.append(x == y)
+    return lem
+
+
+def _rewrite_apps(e, lem):
+    """replace the right-hand application of every lemma by the left-hand one"""
+    subs = [(l.arg(1), l.arg(0)) for l in lem]
+    for _ in range(3):
+        e = z3.substitute(e, *subs)
+    return e
